@@ -115,10 +115,12 @@ def st_option_point():
                     f.add(k + 1)
             o["faults"] = sorted(f)
         elif sub == "dynamic":
-            # @MaximalTimeStep only acts after a rejected step: one injected failure; @MinimalTimeStep is always
-            # written (without it the end-of-period clamp is dead: known finding C48...dynamic_without_minimal_time_step)
+            # @MaximalTimeStep only acts after a rejected step: one injected failure; @MinimalTimeStep is written for
+            # half of the points (without it the end-of-period clamp of GenericSolver::execute is dead: known class
+            # KNOWN_DYNAMIC below, same defect as C48.end_of_period_missed.dynamic_without_minimal_time_step)
             o["maxdt_fraction"] = draw(st.floats(0.15, 1.5))
             o["faults"] = [draw(st.integers(0, 30))]
+            o["mindt"] = draw(st.booleans())
         elif sub == "itermax":
             o["itermax"] = draw(st.integers(3, 8))
         return o
@@ -140,6 +142,8 @@ def substepping_allowed(pb):
 # the plasticity behaviours of the library report a failure when asked for the 'TangentOperator' (their DSL / brick
 # does not provide it): that option value is replaced by 'ConsistentTangentOperator' for them
 NO_TANGENT = ("VPlasticity", "VKinematic")
+# a difference at an option point with @DynamicTimeStepScaling + @MaximalTimeStep, a rejected step and NO @MinimalTimeStep
+KNOWN_DYNAMIC = "C49.end_of_period_missed.dynamic_without_minimal_time_step"
 
 
 def point_text(pb, o, times, reference=False):
@@ -164,8 +168,9 @@ def point_text(pb, o, times, reference=False):
                 env = {"VERIF_FAULTS": ",".join(str(k) for k in o["faults"])}
             if "maxdt_fraction" in o:
                 dtmin = min(b - a for a, b in zip(times, times[1:]))
-                L += [["@DynamicTimeStepScaling", "true"], ["@MaximalTimeStep", g.fmt(o["maxdt_fraction"] * dtmin)],
-                      ["@MinimalTimeStep", g.fmt(1e-9 * dtmin)]]
+                L += [["@DynamicTimeStepScaling", "true"], ["@MaximalTimeStep", g.fmt(o["maxdt_fraction"] * dtmin)]]
+                if o.get("mindt", True):
+                    L.append(["@MinimalTimeStep", g.fmt(1e-9 * dtmin)])
         else:
             L.append(["@MaximumNumberOfSubSteps", "1"])
         args = ["--rounding-direction-mode=" + o["rounding"]]
@@ -232,11 +237,17 @@ def check_case(case):
             m = re.search(r"-number of period:\s*(\d+)", r["out"])
             if m and int(m.group(1)) > nsteps:
                 classes.append("substepped")
-        bad = g.compare_results(pb, R, P, nsteps, EEPS, SEPS, CBAND, errs, ".substepped" if sub else "")
+        # the dissipated energy of the library is the time integral sum(sig_end : d eps_p) (right rectangle rule): it
+        # depends on the time discretisation even where stresses and strains do not, so it is not compared when the
+        # option point is sub-stepped (the stored energy sig:eel/2 is a state function and is compared)
+        bad = g.compare_results(pb, R, P, nsteps, EEPS, SEPS, CBAND, errs, ".substepped" if sub else "",
+                                skip=("dissipated_energy",) if sub else ())
         if bad is not None:
             shown = {kk: vv for kk, vv in o.items() if sub or kk not in ("faults", "maxdt_fraction", "itermax")}
             key = "C49.differs.%s%s" % (bad[0], ".substepping" if sub else "")
-            if sub and "maxdt_fraction" not in o and g.has_short_period(times):
+            if sub and "maxdt_fraction" in o and not o.get("mindt", True):
+                key = KNOWN_DYNAMIC
+            elif sub and "maxdt_fraction" not in o and g.has_short_period(times):
                 # known class (findings/pending/C49.json, same defect as C48's): a rejected step inside a period
                 # that is short with respect to the absolute time may make GenericSolver::execute step beyond te
                 key = "C49.end_of_period_missed.short_period_substepped"
